@@ -172,11 +172,23 @@ class C16(Profile):
         path = self._path(world, op)
         if op["op"] == "save":
             vals = codec.dec(op["values"])
+            form = op.get("as")
+            if form == "list":
+                vals = vals.tolist()
+            elif form == "tuple":
+                vals = tuple(vals.tolist())
+            elif form == "reversed-view":
+                vals = vals[::-1][::-1]
+            elif form == "strided-view":
+                vals = np.repeat(vals, 2)[::2]
+            dt = self._typed_dt(op)
             if op["via"].startswith("save_signal"):
                 cls = getattr(eqsig, op["via"].split(":")[1])
-                sig = cls(vals, op["dt"], label=op["label"])
+                sig = cls(vals, dt, label=op["label"])
                 return eqsig.save_signal(path, sig)
-            return eqsig.save_values_and_dt(path, vals, op["dt"], op["label"])
+            return eqsig.save_values_and_dt(path, vals, dt, op["label"])
+        if "badpath" in op:
+            path = op["badpath"]          # K1: not a path at all -- the load is rejected
         via = op["via"]
         if via == "load_values_and_dt":
             return eqsig.load_values_and_dt(path)
@@ -190,6 +202,21 @@ class C16(Profile):
         if via == "load_asig:label":
             return eqsig.load_asig(path, load_label=True, **kw)
         return eqsig.load_asig(path, **kw)
+
+    def _typed_dt(self, op):
+        t = op.get("dt_type")
+        dt = op["dt"]
+        if t == "f4":
+            return np.float32(dt)
+        if t == "f2":
+            return np.float16(dt)
+        if t == "f8":
+            return np.float64(dt)
+        if t == "int":
+            return int(dt)
+        if t == "i8":
+            return np.int64(dt)
+        return dt
 
     def apply(self, world, op, step):
         st = world.stats
@@ -244,7 +271,7 @@ class C16(Profile):
         f = op["f"]
         real_fault = [k for k in fired_kinds if k != "K11"]
         if op["op"] == "save":
-            rec = {"values": np.asarray(codec.dec(op["values"]), dtype=float), "dt": float(op["dt"]), "label": op["label"],
+            rec = {"values": np.asarray(codec.dec(op["values"]), dtype=float), "dt": float(self._typed_dt(op)), "label": op["label"],
                    "via": op["via"]}
             old = world.model.get(f)
             if out.ok:
@@ -274,6 +301,11 @@ class C16(Profile):
             world.pending_recover[f] = real_fault[-1]
             return None
         # ---- load ----
+        if "badpath" in op:
+            st["faults"].setdefault("K1", {"armed": 0, "fired": 0, "recovered": 0})["armed"] += 1
+            if not out.ok:
+                st["faults"]["K1"]["fired"] += 1
+            return None                    # (what a loader does with something that is not a path is not C16's business)
         rec = world.model.get(f)
         if rec is None or rec == UNKNOWN:
             st["loads_of_unknown"] += 1
@@ -457,6 +489,7 @@ class Gen(object):
             op = self.g_save("f0")
             op["via"] = sw["save"]
             op["dt"] = rng.choice(dts)
+            op.pop("dt_type", None)       # (the typed time steps come with their own values)
             v = self._values()
             while len(v["v"]) < n:
                 v["v"] = v["v"] + v["v"] + [0.5]
@@ -553,19 +586,19 @@ class Gen(object):
         if c < 0.5:
             vals = gen_record(rng, n)
         elif c < 0.65:
-            vals = [rng.choice([-1, 1]) * 10 ** rng.uniform(-7, 12) for _ in range(n)]
+            vals = [rng.choice([-1, 1]) * 10 ** rng.uniform(-7, rng.choice([12, 12, 12, 30, 120])) for _ in range(n)]
         elif c < 0.75:
             vals = [float(rng.randint(-10 ** 6, 10 ** 6)) for _ in range(n)]
         elif c < 0.85:
             vals = [rng.choice([0.0, 0.0, -0.0, 1e-7, -1e-7, 4.9999995e-7, 5.0000005e-7, -0.0000005, 123456.7890125, 1e12, -1e12,
                                 0.1234565, 2.5e-7, 0.0000015, -0.0000025, 1.0, -1.0, 10.0, -200.0, 999999.9999995, 0.9999995,
-                                1e-6, -1e-6, 99999.5, 1e6, 123456789012.0]) for _ in range(n)]
+                                1e-6, -1e-6, 99999.5, 1e6, 123456789012.0, 1e24, -1e23, 6.02e26, 1e100]) for _ in range(n)]
         else:
             vals = [rng.uniform(-1, 1) * 10 ** rng.randint(-3, 6) for _ in range(n)]
         kind = "f8"
         if rng.random() < 0.08:
             return {"nd": "i8", "v": [int(max(min(v, 1e15), -1e15)) for v in vals]}
-        if rng.random() < 0.06:
+        if rng.random() < 0.06 and all(abs(v) < 1e37 for v in vals):      # (finite in single precision as well)
             return {"nd": "f4", "v": [float(np.float32(v)) for v in vals]}
         return {"nd": kind, "v": [float(v) for v in vals]}
 
@@ -584,13 +617,31 @@ class Gen(object):
 
     def g_save(self, f):
         rng = self.rng
-        return {"op": "save", "f": f, "via": rng.choice(SAVE_VIA), "values": self._values(), "dt": self._dt(),
-                "label": rng.choice(LABELS)}
+        op = {"op": "save", "f": f, "via": rng.choice(SAVE_VIA), "values": self._values(), "dt": self._dt(),
+              "label": rng.choice(LABELS)}
+        c = rng.random()
+        if c < 0.2 and op["values"]["nd"] == "f8":
+            op["as"] = rng.choice(["list", "tuple", "list", "reversed-view", "strided-view"])
+        c = rng.random()
+        if c < 0.12:
+            # the time step as another kind of number; the value is chosen so that the type holds it (nearly) exactly
+            t = rng.choice(["f4", "f2", "f8", "int", "i8"])
+            if t in ("int", "i8"):
+                op["dt"] = float(rng.choice([1, 2, 5, 10, 60, 100]))
+            elif t == "f2":
+                op["dt"] = float(np.float16(rng.choice([0.5, 0.25, 1.0, 2.0, 7.0, 8.0, 16.0, 64.0, 100.0, 0.125])))
+            elif t == "f4":
+                op["dt"] = float(np.float32(op["dt"]))
+            op["dt_type"] = t
+        return op
 
     def g_load(self, world, f):
         rng = self.rng
         via = rng.choice(LOAD_VIA)
         op = {"op": "load", "f": f, "via": via}
+        if self.cfg["faults_on"] and rng.random() < 0.06:
+            op["badpath"] = rng.choice([None, 3.5, 0, ["x"], {"tu": []}])
+            return op
         if via in ("load_sig", "load_asig", "load_asig:label") and rng.random() < 0.5:
             op["m"] = rng.choice([2.0, -0.5, 1e-3, 9.81, 1.0, 1.000004, 0.999992, -1.0, 1.0000001, 100.0, 0.1])
         return op
